@@ -1521,7 +1521,7 @@ class SecurityBase(Node):
         if is_zero(q) or np.isnan(q):
             return
 
-        # unless we are closing out a position (q == -position)
+        # unless we are closing out a position (amount == -value)
         # we want to ensure that
         #
         # - In the event of a positive amount, this indicates the maximum
@@ -1534,7 +1534,7 @@ class SecurityBase(Node):
         # sell additional units to fund this requirement. As such, q must once
         # again decrease.
         #
-        if not q == -self._position:
+        if not is_zero(amount + self._value):
             full_outlay, _, _, _ = self.outlay(q)
 
             # if full outlay > amount, we must decrease the magnitude of `q`
